@@ -271,10 +271,42 @@ func workload(seed int64, rounds int) [][]byte {
 	return outs
 }
 
+// tight variant: nothing but the ciphering / integrity primitives and the codecs, each goroutine under its own keys, many iterations
+// (a cache or pool that is only wrong while two goroutines use different parameters needs many closely spaced calls to show)
+func workloadTight(seed int64, iters int) [][]byte {
+	r := ev.Rng(seed, "tight")
+	var kenc, kint [16]byte
+	copy(kenc[:], ev.Bytes(r, 16))
+	copy(kint[:], ev.Bytes(r, 16))
+	msg := ev.Bytes(r, 33+int(seed%7))
+	var outs [][]byte
+	for i := 0; i < iters; i++ {
+		for _, alg := range []uint8{2, 1} {
+			c := append([]byte{}, msg...)
+			security.NASEncrypt(alg, kenc, uint32(i), 1, uint8(i%2), c)
+			mac, _ := security.NASMacCalculate(alg, kint, uint32(i), 1, uint8(i%2), msg)
+			outs = append(outs, c, mac)
+		}
+		if i%8 == 0 {
+			b, _ := tglib.GetUplinkNASTransport(seed*100000+int64(i), seed, msg)
+			outs = append(outs, b)
+			if pdu, err := ngap.Decoder(b); err == nil {
+				b2, _ := ngap.Encoder(*pdu)
+				outs = append(outs, b2)
+			}
+		}
+	}
+	return outs
+}
+
 func stress(g, rounds int, w *ev.Writer) {
+	wl := workload
+	if rounds >= 1000 { // -rounds 1000+N selects the tight workload with N iterations
+		wl = func(seed int64, _ int) [][]byte { return workloadTight(seed, rounds-1000) }
+	}
 	seq := make([][][]byte, g)
 	for i := 0; i < g; i++ {
-		seq[i] = workload(int64(i+1), rounds)
+		seq[i] = wl(int64(i+1), rounds)
 	}
 	conc := make([][][]byte, g)
 	pan := make([]bool, g)
@@ -283,7 +315,7 @@ func stress(g, rounds int, w *ev.Writer) {
 		wg.Add(1)
 		go func(i int) {
 			defer wg.Done()
-			pan[i] = ev.Catch(func() { conc[i] = workload(int64(i+1), rounds) }) != ""
+			pan[i] = ev.Catch(func() { conc[i] = wl(int64(i+1), rounds) }) != ""
 		}(i)
 	}
 	wg.Wait()
